@@ -92,11 +92,17 @@ fn other_digest(i: u8) -> Sha256Digest {
 }
 
 fn verify(der: &[u8], hashes: Vec<Sha256Digest>, now_unix: i64) -> Result<(), String> {
+    verify_chain(der, &[], hashes, now_unix)
+}
+
+/// `rest`: the other certificates the server sent behind the leaf (only the leaf may satisfy the pin)
+fn verify_chain(der: &[u8], rest: &[Vec<u8>], hashes: Vec<Sha256Digest>, now_unix: i64) -> Result<(), String> {
     let v = ServerHashVerification::new(hashes);
+    let inter: Vec<rustls::pki_types::CertificateDer> = rest.iter().map(|d| rustls::pki_types::CertificateDer::from(d.clone())).collect();
     let ee = rustls::pki_types::CertificateDer::from(der.to_vec());
     let name = rustls::pki_types::ServerName::try_from("localhost").unwrap();
     let now = rustls::pki_types::UnixTime::since_unix_epoch(std::time::Duration::from_secs(now_unix as u64));
-    v.verify_server_cert(&ee, &[], &name, &[], now).map(|_| ()).map_err(|e| format!("{e:?}"))
+    v.verify_server_cert(&ee, &inter, &name, &[], now).map(|_| ()).map_err(|e| format!("{e:?}"))
 }
 
 fn direct(key: u8, validity_s: i64, now_offset: i64, from_end: bool, hashes: u8) -> Result<String, String> {
@@ -106,16 +112,22 @@ fn direct(key: u8, validity_s: i64, now_offset: i64, from_end: bool, hashes: u8)
     let na = nb + validity_s;
     let now = if from_end { na + now_offset } else { nb + now_offset };
     let own = digest_of(der);
+    // another currently valid, short-lived P-256 certificate (never the leaf itself)
+    let extra = cached_cert(0, 777_777);
     let set: Vec<Sha256Digest> = match hashes {
         0 => vec![],
         1 => vec![own],
         2 => vec![other_digest(1)],
         3 => (0..31).map(other_digest).chain(std::iter::once(own)).collect(),
-        _ => (0..32).map(other_digest).collect(),
+        4 => (0..32).map(other_digest).collect(),
+        // 5: the pin names another certificate, which the server sends behind its (unpinned) leaf; 6: own pin, longer chain
+        5 => vec![digest_of(&extra.0)],
+        _ => vec![own],
     };
-    let pinned = matches!(hashes, 1 | 3);
+    let rest: Vec<Vec<u8>> = if hashes >= 5 { vec![extra.0.clone()] } else { vec![] };
+    let pinned = matches!(hashes, 1 | 3 | 6);
     let want = pinned && nb <= now && now <= na && validity_s <= 14 * DAY && key == 0;
-    let got = std::panic::catch_unwind(|| verify(der, set, now)).map_err(|_| "verify_server_cert panicked".to_string())?;
+    let got = std::panic::catch_unwind(|| verify_chain(der, &rest, set, now)).map_err(|_| "verify_server_cert panicked".to_string())?;
     match (want, got) {
         (true, Ok(())) => Ok("accepted".into()),
         (false, Err(_)) => Ok("refused".into()),
@@ -317,7 +329,7 @@ pub fn scenarios(tier: Tier) -> Vec<Sc> {
                 }
             }
             for (off, from_end) in nows {
-                for hashes in 0..5u8 {
+                for hashes in 0..7u8 {
                     out.push(Sc::Direct { key, validity_s: v, now_offset: off, from_end, hashes });
                 }
             }
@@ -364,7 +376,7 @@ pub fn run_check(args: &Args) -> i32 {
     let rep = Report::new(
         args,
         "exploration",
-        "complete grid of direct verifier calls with an injected clock: key algorithm (P-256, P-384, Ed25519) x validity (1 s, 13 d, 14 d - 1 s, 14 d, 14 d + 1 s, 15 d, 365 d) x now (not_before -1/0/+1 s, middle, not_after -1/0/+1 s; thorough: +-60 s second by second, and validity 14 d +-60 s) x hash set (empty, own, other, 31 others + own, 32 others); truncated and bit-flipped DER; end to end on the simulated network: 6 trust policies (hashes own / other / empty, native roots, custom root store with the issuing CA, no validation) x 6 server identities (P-256 14 d, expired, not yet valid, 15 d, P-384, CA-signed leaf); distinct by construction, all non-trivial",
+        "complete grid of direct verifier calls with an injected clock: key algorithm (P-256, P-384, Ed25519) x validity (1 s, 13 d, 14 d - 1 s, 14 d, 14 d + 1 s, 15 d, 365 d) x now (not_before -1/0/+1 s, middle, not_after -1/0/+1 s; thorough: +-60 s second by second, and validity 14 d +-60 s) x hash set (empty, own, other, 31 others + own, 32 others, the hash of another valid certificate sent behind the unpinned leaf, own with a longer chain); truncated and bit-flipped DER; end to end on the simulated network: 6 trust policies (hashes own / other / empty, native roots, custom root store with the issuing CA, no validation) x 6 server identities (P-256 14 d, expired, not yet valid, 15 d, P-384, CA-signed leaf); distinct by construction, all non-trivial",
     );
     rep.assume("expected decision computed from the generation parameters: hash in set AND not_before <= now <= not_after AND validity <= 14 days AND key is ECDSA P-256");
     rep.assume("end-to-end windows keep >= 1 h / 2 days of margin from the wall clock that rustls reads");
